@@ -524,14 +524,25 @@ Proof.
   repeat split; auto. destruct (i_req c (b_id b)); [discriminate | discriminate].
 Qed.
 
+(** the outcome of a transaction once the audit step is known not to fail *)
+Inductive hok (w : world) (h serial : N) (b : ibtp) (t : txm) (c : ichain) : txm -> ichain -> txres -> Prop :=
+| HokRejected e : hok w h serial b t c t c (res_err e)
+| HokDone sf sd terr notif t' ch :
+    svc_lookup w (b_from b) = Some sf -> svc_lookup w (b_to b) = Some sd ->
+    check_ibtp cfg_fixed w c b = ChkOk false terr notif ->
+    tm_step cfg_fixed w h b sf sd terr t = Some (TmOk t' ch) ->
+    let nc := notify_src_dst cfg_fixed w c h sf sd ch in
+    let pc := process_ibtp w (fst nc) b (get_rec c (b_from b)) serial notif terr false (c_cur ch) (c_child ch) in
+    hok w h serial b t c t' (fst pc) (Build_txres true 0 (snd pc) (snd nc) false).
+
 Theorem binv_handle w h serial b t c t' c' r :
   BInv w t c -> b_idx b < B63 ->
   handle_ibtp cfg_fixed w h serial b t c = Some (t', c', r) ->
-  BInv w t' c' /\ (r_ok r = false -> t' = t /\ c' = c /\ r_chains r = []).
+  BInv w t' c' /\ hok w h serial b t c t' c' r.
 Proof.
   intros I Hsmall H. apply handle_fixed_inv in H.
   destruct H as [e | sf sd terr notif t' ch af Esf Esd Ec Et nc pc Haf].
-  - split; [exact I | intros _; auto].
+  - split; [exact I | constructor].
   - destruct (check_fixed _ _ _ _ _ _ Ec) as [_ [Hnotif [_ Hidx]]].
     pose proof (begun_evolution _ _ _ _ _ _ _ _ _ Et) as [Hmono [Hnew [Hself Hresp]]].
     pose proof (notify_fields cfg_fixed w c h sf sd ch) as Hsc. fold nc in Hsc.
@@ -563,7 +574,7 @@ Proof.
       { rewrite Haf, Epc. destruct (req_step_rec_new (fst nc) b (get_rec c (b_from b)) serial) as [A B].
         unfold rec_missing. destruct (i_rec _ (b_from b)); [|contradiction]. destruct (i_rec _ (b_to b)); [|contradiction].
         apply andb_false_r. }
-      rewrite Haf'. split; [exact I' | simpl; discriminate].
+      rewrite Haf'. split; [exact I' | eapply HokDone; eauto].
     + (* a receipt or an inter-hub notice *)
       assert (Hbg : begun t (b_id b)).
       { destruct (is_request b) eqn:Hrq; [|apply Hresp; reflexivity].
@@ -611,5 +622,14 @@ Proof.
         apply Hrmono in A. apply Hrmono in B.
         unfold rec_missing. simpl. destruct (i_rec c2 bf); [|contradiction]. destruct (i_rec c2 bt); [|contradiction].
         apply andb_false_r. }
-      rewrite Haf'. split; [exact I' | simpl; discriminate].
+      rewrite Haf'. split; [exact I' | eapply HokDone; eauto].
+Qed.
+
+Corollary reject_frame w h serial b t c t' c' r :
+  BInv w t c -> b_idx b < B63 ->
+  handle_ibtp cfg_fixed w h serial b t c = Some (t', c', r) ->
+  r_ok r = false -> t' = t /\ c' = c /\ r_chains r = [].
+Proof.
+  intros I Hs H Hr. destruct (binv_handle _ _ _ _ _ _ _ _ _ I Hs H) as [_ K].
+  inversion K; subst; [auto | discriminate].
 Qed.
